@@ -12,6 +12,25 @@ CHECKS = {
              'oracle = table parsed from docsite reference at run time. Outside: chains longer than the bound, operand parsing.',
         technique='symbolic execution of rustc MIR with path forking + z3 validity query per path (bounded: chain length)'),
 }
+CHECKS['C08'] = dict(
+    category='model_checking',
+    text='Bounded symbolic model checking of the real env/flags/exec converters and the two shell-escaping helpers: tuples of up to 3 (quick) / 4 (thorough) '
+         'fields of every kind, string values of up to 3 / 5 symbolic bytes; the symbolic output is tokenised by a POSIX-shell oracle whose obligations '
+         '(every input byte literal inside its quotes, each scalar exactly one word, nothing swallowed or merged) are discharged by z3 on every path. '
+         'The solver covers all byte values per length, not the nine-letter alphabet a test could enumerate; counterexamples are judged by real /bin/sh and bash.',
+    design_ref='DESIGN.md 4/C08',
+    note='Trusted: MIR = code; std builtins incl. forking str::replace; shell model (validated against sh/bash on witnesses each run; real shells judge every alarm). '
+         'Outside: field names that are not shell identifiers, bytes >= 0x80 and NUL, run-time behaviour of exec.',
+    technique='symbolic execution of rustc MIR over symbolic bytes + z3-discharged shell-tokenisation obligations (bounded: bytes, fields)')
+CHECKS['C04'] = dict(
+    category='model_checking',
+    text='Panic-freedom of the translator+VM kernels named in the evidence, within bounds: one-statement programs whose i64/f64/string leaves are symbolic '
+         '(all arithmetic, comparison and cast operators, ranges with a bounded trip count, symbolic list indices, format templates of up to 3/4 symbolic bytes with '
+         '0..2 arguments). Every MIR assert (overflow, division, bounds), unwrap and panic! on the path is a reachability query for z3, which returns the operands '
+         '(i64::MIN / -1, ranges ending at i64::MAX, "@@" % (1)) no sampled test contains. Termination and stack depth cannot be shown by bounded execution and are not claimed.',
+    design_ref='DESIGN.md 4/C04',
+    note='Trusted: MIR = code (dev profile, overflow checks on); std builtins. Outside: non-termination, stack exhaustion, arbitrary 4 KiB text, token mutations of corpus files, exit status.',
+    technique='symbolic execution of rustc MIR with z3 reachability queries on every panic site (bounded: statement shape, trip counts, template length)')
 NOT_APPLICABLE = {
 }
 ALL = ['C%02d' % i for i in range(1, 21)]
